@@ -72,12 +72,14 @@ def run(ctx):
                     mism.append(crs.mismatches[-1])
                 if r is None or r["error_num"] != 0:
                     continue
-                want = min(mt, 300) if ttl == 0 else min(ttl, mt)
+                # enc.c: a TTL of 0 selects the daemon default (300 s) as it is; any OTHER value above the maximum is clamped
+                # (C06: "a TTL of 0 selects the daemon default and any other TTL above the maximum ... is clamped")
+                want = 300 if ttl == 0 else min(ttl, mt)
                 p_ = crs.o.parse(r["data"])
                 d, mm, diff = crp.decode_both(r["data"], uid=1, gid=1)
                 got_p = p_ and p_["msg"]["ttl"]
                 got_d = d and d["error_num"] == 0 and d["ttl"]
-                if got_p != want or got_d != want:
+                if got_p != want or got_d != min(want, 3600):
                     fails.append({"why": "a daemon with --max-ttl=%d asked for ttl=%d emits a credential whose TTL field is %s (independent "
                                          "parse) / %s (peer daemon with the same key), the requested-and-capped value is %d"
                                          % (mt, ttl, got_p, got_d, want), "cred_hex": r["data"].hex()})
